@@ -435,18 +435,11 @@ class OutgoingMessageHandler:
     async def handle_internal(
         cls,
         gateway: Gateway,
-        message: Message,
-        message_buffer: MessageBuffer | None,
+        message: Message,  # noqa: ARG003
+        message_buffer: MessageBuffer | None,  # noqa: ARG003
         decoded_message: str,
     ) -> None:
         """Process outgoing internal messages."""
-        if message_buffer:
-            message_buffer.internal_messages[
-                (message.node_id, message.child_id, message.message_type)
-            ] = message
-
-            return
-
         await gateway.transport.write(decoded_message)
 
 
